@@ -21,6 +21,10 @@
 (*    lane l | att r | link r l | unlink r l | unk r | ev l t (t = 0:      *)
 (*    broadcast) | cmd l | close r | fail l | prune r | stop               *)
 (*    + "att": bit mask of the remotes attached after the step             *)
+(*  the same vocabulary describes runs of the whole agent runtime (level   *)
+(*    R of the harness: requests sent as envelopes, "att" = remotes whose  *)
+(*    completion promise is unresolved), plus sync r l (a sync request:    *)
+(*    nothing by itself) and tick (the prune delay passes)                 *)
 (*  every event: "sn" bit mask of the readers snapshotted after the step   *)
 (*    (bit l-1 = lane l, bit nl = aggregate) and "s": their snapshots in   *)
 (*    that order, [st, link_count, event_count, command_count] with st     *)
